@@ -18,6 +18,7 @@ def run(ctx):
     ctx.model_check("net/MCKademlia", "net/MCKademliaReval", timeout=T, name="MCKademlia-reval", workers=4, coverage=ctx.thorough)
     if ctx.thorough:
         ctx.model_check("net/MCKademlia", "net/MCKademliaThorough", timeout=2 * T, name="MCKademlia-thorough", workers=4)
+        ctx.model_check("net/MCKademlia", "net/MCKademliaRevalThorough", timeout=2 * T, name="MCKademlia-reval-thorough", workers=4)
     tp = os.path.join(ctx.scratch, "trace.ndjson")
     s, _ = ctx.drive(drv, ["-mode", "record", "-trace", tp, "-n", ctx.pick(8, 60), "-steps", ctx.pick(700, 1000)], name="c46-record", timeout=T)
     ok, consumed, total, r = ctx.validate("net/KademliaTrace", tp, ntraces=s["traces"], timeout=2 * T)
